@@ -87,6 +87,7 @@ type W struct {
 	res      SRec
 	outcomes map[uint64]struct{}
 	nontriv  map[uint64]struct{}
+	memTick  int
 	sigCount map[string]int
 	replay   *VRec
 	stop     bool
@@ -135,7 +136,50 @@ func (w *W) Expired() bool {
 		w.res.Capped = true
 		return true
 	}
+	// Goroutines of executions that ended in a dead bubble stay blocked for ever (see workerMain): in a scenario of
+	// some hundred thousand executions that is gigabytes. A worker that outgrows its share of the machine's memory
+	// stops the scenario (reported as capped) and is replaced, instead of driving the machine out of memory.
+	w.memTick++
+	if w.memTick%512 == 0 && !w.stop {
+		var ms runtime.MemStats
+		runtime.ReadMemStats(&ms)
+		if ms.Sys > workerMemCap() {
+			w.res.Capped = true
+			w.Extra("capped_by_worker_memory", 1)
+			w.stop = true
+		}
+	}
 	return w.stop
+}
+
+var memCap uint64
+
+// workerMemCap is a worker's share of 60% of the machine's memory (VERIF_WORKER_MEM_MB overrides), within [1, 4] GiB.
+func workerMemCap() uint64 {
+	if memCap != 0 {
+		return memCap
+	}
+	memCap = 3 << 30
+	if v, err := strconv.Atoi(os.Getenv("VERIF_WORKER_MEM_MB")); err == nil && v > 0 {
+		memCap = uint64(v) << 20
+		return memCap
+	}
+	if b, err := os.ReadFile("/proc/meminfo"); err == nil {
+		for _, l := range strings.Split(string(b), "\n") {
+			if f := strings.Fields(l); len(f) >= 2 && f[0] == "MemTotal:" {
+				if kb, err := strconv.ParseUint(f[1], 10, 64); err == nil {
+					memCap = kb * 1024 * 6 / 10 / uint64(runtime.NumCPU())
+				}
+			}
+		}
+	}
+	if memCap < 1<<30 {
+		memCap = 1 << 30
+	}
+	if memCap > 4<<30 {
+		memCap = 4 << 30
+	}
+	return memCap
 }
 
 // Replaying returns the violation being replayed (nil in normal runs).
